@@ -7,7 +7,7 @@ SetToSeq(S) == LET RECURSIVE F(_) F(T) == IF T = {} THEN <<>> ELSE LET x == CHOO
                IN F(S)
 CfOut(c) == [obf |-> c.obf, host |-> c.host, mac |-> c.mac, kws |-> SetToSeq(c.kws), pats |-> SetToSeq(c.pats),
              regex |-> c.regex, sysdom |-> c.sysdom, fam |-> c.fam]
-SpOut(sp) == [nored |-> sp.nored, noobf |-> SetToSeq(sp.noobf), width |-> sp.width]
+SpOut(sp) == [nored |-> sp.nored, noobf |-> SetToSeq(sp.noobf), width |-> sp.width, allow |-> sp.allow]
 Emit ==
     Terminal =>
         PrintT(<<"CASE", ToJson([cf |-> CfOut(cf), ord |-> ord,
